@@ -93,7 +93,10 @@ PROPS = {
         required_theorems=["C03_acks_monotone_bounded", "C03_eventually_complete"],
         rule=ROUTING_RULE + " Focus C03: slow (gated) targets flooded with >100 watermarks so that the 100-slot queue fills and broadcasts are dropped, "
              "targets that never get a task, late targets; every fault-free trace ends with a drain phase (gates opened, all targets opened, two fair "
-             "rounds: final watermark re-sent, every target acks everything it received) after which the last upstream ack must equal the final high watermark.",
+             "rounds: final watermark re-sent, every target acks everything it received) after which the last upstream ack must equal the final high watermark. "
+             "A quarter as many additional traces (C03 and C01) have SLOW SOURCES (op `sgate`: the source cluster stops reading, so the receiver's Send of an "
+             "acknowledgement blocks half-way through the step the model treats as atomic); these traces are outside the model's op language and are "
+             "checked by the monitors only (monotone, bounded, C01 safety, drain).",
         assumptions=ROUTING_ASSUMPTIONS + ["liveness is the 'two fair rounds' reading: the source re-sends its final watermark and every target acknowledges what it received, twice; real-time tickers are not modelled"],
         timeout={"quick": 1200, "thorough": 7200},
     ),
